@@ -982,6 +982,8 @@ def run_real(world, rend):
     from tornado import template
     ns = make_ns(world.get("vals"), with_funcs=not world.get("lns"))
     srcs = {name: fs.src for name, fs in rend.items()}
+    if world.get("bsrc"):       # template text given as UTF-8 bytes
+        srcs = {name: s.encode("utf-8") for name, s in srcs.items()}
     try:
         if world["mode"] == "direct":
             t = template.Template(srcs[world["entry"]], **world["tkw"])
@@ -1034,7 +1036,9 @@ def judge(world, exp=None):
     elif kind == "ok":
         if real[0] == "ok":
             if real[1] not in exp["outs"]:
-                v = ("output", "output %r, the template defines %r" % (real[1], sorted(exp["outs"])))
+                strip = lambda b: bytes(c for c in b if c not in b" \t\n\r")
+                cat = "output-ws" if strip(real[1]) in {strip(o) for o in exp["outs"]} else "output"
+                v = (cat, "output %r, the template defines %r" % (real[1], sorted(exp["outs"])))
         elif real[0] == "perr":
             v = ("unexpected-perr:" + re.sub(r"[^A-Za-z ]", "", real[3])[:30].strip().replace(" ", "-"),
                  "well-formed template rejected: %r" % (real,))
@@ -1185,6 +1189,94 @@ def std_heads(conds=("n", "z"), seqs=("xs", "e0"), elifs=("n",), excepts=("", "K
     return heads
 
 
+# -- multi-file structures (family M of C19, family MA of C20)
+
+def m_file_grammar(i, names, profile="ws"):
+    letter = "EPG"[i]
+    if profile == "ws":
+        leaves = [("text", letter + " \n\t "), ("expr", "s", " ")]
+        kw = dict(conds=("n",))
+    else:     # "esc": expressions and raw tags only
+        leaves = [("expr", "s", " "), ("raw", "s")]
+        kw = dict(conds=())
+    for j in range(i + 1, len(names)):
+        leaves.append(("include", names[j]))
+    heads = std_heads(seqs=("xs",), elifs=(), excepts=(), try_full=False,
+                      loop_else=False, whiles=False, blocks=("b1", "b2"), **kw)
+    heads = [hd for hd in heads if hd[0] != "try"]
+    return Grammar(leaves, [], heads, 2)
+
+
+def m_structures(total, nfiles, profile="ws", stems=("e", "p", "g")):
+    """All (names-independent) structures: tuple of per-file (extends index or
+    None, body) with every file after the first referenced by an earlier one
+    and sum of body sizes <= total."""
+    names = ["%s%d" % (stems[i], i) for i in range(nfiles)]    # placeholders
+    grams = [m_file_grammar(i, names, profile) for i in range(nfiles)]
+    for sizes in itertools.product(range(total + 1), repeat=nfiles):
+        if sum(sizes) > total:
+            continue
+        ext_opts = []
+        for i in range(nfiles):
+            ext_opts.append([None] + list(range(i + 1, nfiles)))
+        for exts in itertools.product(*ext_opts):
+            lists = [grams[i].bodies(sizes[i]) for i in range(nfiles)]
+            for bodies in itertools.product(*lists):
+                # every later file must be referenced from an earlier reachable one
+                ok = True
+                reach = {0}
+                for i in range(nfiles):
+                    if i not in reach:
+                        ok = False
+                        break
+                    if exts[i] is not None:
+                        reach.add(exts[i])
+                    for j in range(i + 1, nfiles):
+                        if _includes(bodies[i], names[j]):
+                            reach.add(j)
+                if not ok or len(reach) != nfiles:
+                    continue
+                yield names, exts, bodies
+
+
+def _includes(body, name):
+    found = []
+
+    def visit(node, path):
+        if node[0] == "include" and node[1] == name:
+            found.append(1)
+    _walk(body, visit)
+    return bool(found)
+
+
+def m_world(names, exts, bodies, file_exts, lkw, pre=None, post=None):
+    real = {names[i]: "%s.%s" % (names[i][0], file_exts[i]) for i in range(len(names))}
+
+    def ren(body):
+        out = []
+        for node in body:
+            if node[0] == "include":
+                out.append(("include", real[node[1]]))
+            elif node[0] in CONTAINERS:
+                b, cls = parts_of(node)
+                out.append(rebuild(node, ren(b), tuple(c[:-1] + (ren(c[-1]),) for c in cls)))
+            else:
+                out.append(node)
+        return tuple(out)
+    files = {}
+    for i, n in enumerate(names):
+        body = ren(bodies[i])
+        if exts[i] is not None:
+            body = (("extends", real[names[exts[i]]]),) + body
+        if pre and pre[i]:
+            body = tuple(pre[i]) + body
+        if post and post[i]:
+            body = body + tuple(post[i])
+        files[real[n]] = body
+    return {"entry": real[names[0]], "files": files, "lkw": dict(lkw)}
+
+
+
 # -- shrinking (used only when a violation was found, to name it structurally)
 
 def shrink_candidates_body(body):
@@ -1292,46 +1384,64 @@ def shrink_world(world, still_bad, budget=400):
     return world
 
 
-def skeleton(body):
-    out = []
+def _paths(body, prefix, out):
     for node in body:
         k = node[0]
         if k == "text":
-            out.append("T%r" % node[1] if len(node[1]) <= 6 else "T")
-        elif k in ("expr", "raw", "module"):
-            out.append(k)
-        elif k == "lit":
-            out.append(node[1] + "!")
+            out.add(prefix + "T")
         elif k == "bad":
-            out.append("bad:" + node[1])
+            out.add(prefix + "bad:" + node[1])
         elif k == "noend":
-            out.append("noend:" + skeleton((node[1],)))
+            out.add(prefix + "noend:" + node[1][0])
+            _paths((node[1],), prefix, out)
         elif k in CONTAINERS:
+            name = k + ("()" if k in ("apply", "block") and not node[1] else "")
             b, cls = parts_of(node)
-            s = k + ("()" if k in ("apply", "block") and not node[1] else "") + "[" + skeleton(b)
+            if not b:
+                out.add(prefix + name)
+            _paths(b, prefix + name + ">", out)
             for cl in cls:
-                s += "|" + cl[0] + ":" + skeleton(cl[-1])
-            out.append(s + "]")
-        elif k in ("autoescape", "whitespace", "include", "extends"):
-            out.append("%s(%s)" % (k, node[1]))
+                out.add(prefix + k + "-" + cl[0])
+                _paths(cl[-1], prefix + k + "-" + cl[0] + ">", out)
         elif k == "set" and not node[1]:
-            out.append("set()")
+            out.add(prefix + "set()")
+        elif k in ("include", "extends") and not node[1]:
+            out.add(prefix + k + "()")
         else:
-            out.append(k)
-    return ",".join(out)
+            out.add(prefix + k)
+
+
+def file_roles(world):
+    """file -> "entry" | "parent" (reached through extends) | "inc"."""
+    roles = {world["entry"]: "entry"}
+    cur = world["entry"]
+    while True:
+        ext = [n[1] for n in world["files"].get(cur, ()) if n[0] == "extends" and n[1]]
+        if not ext or ext[0] in roles or ext[0] not in world["files"]:
+            break
+        roles[ext[0]] = "parent"
+        cur = ext[0]
+    for f in world["files"]:
+        roles.setdefault(f, "inc")
+    return roles
 
 
 def world_skeleton(world):
+    """Structural key of a (shrunk) world: per file role the *set* of node
+    paths; literal text, names, positions and multiplicities are dropped so
+    that one defect maps to few keys."""
+    roles = file_roles(world)
     parts = []
-    for name in sorted(world["files"]):
-        tag = "entry" if name == world["entry"] else "file"
-        ext = name.rsplit(".", 1)[-1] if "." in name else ""
-        parts.append("%s.%s{%s}" % (tag, ext, skeleton(world["files"][name])))
+    for name in sorted(world["files"], key=lambda n: (["entry", "parent", "inc"].index(roles[n]), n)):
+        out = set()
+        _paths(world["files"][name], "", out)
+        if out or roles[name] == "entry":
+            parts.append("%s{%s}" % (roles[name], ",".join(sorted(out))))
     s = ";".join(parts)
     opts = []
     for key in ("lkw", "tkw"):
-        for k, v in sorted(world[key].items()):
-            opts.append("%s=%s" % (k, v))
+        for k in sorted(world[key]):
+            opts.append("%s.%s" % (key, k))
     if opts:
         s += ";" + ",".join(opts)
     return s
